@@ -41,7 +41,9 @@ structure Obs where
 
 def Obs.ran (o : Obs) : Bool := o.runs > 0
 /-- ResourceManager: this call's `create` ran and succeeded (scripted: no error, no panic). -/
-def Obs.created (o : Obs) : Bool := o.runs > 0 && !o.serr && !o.spanic
+def Obs.created (o : Obs) : Bool := o.runs > 0 && (!o.serr || o.ek = 5) && !o.spanic
+/-- the loader failed with an error that is handed to the overlapping callers and not cached. -/
+def Obs.failed (o : Obs) : Bool := o.serr && o.ek ≠ 5
 
 /-- executions of two different calls on the same key must not overlap. -/
 def overlapping (a b : Obs) : Bool :=
@@ -148,6 +150,8 @@ def rmCallViolation (nilJoin : Bool) (inj : List (Nat × Nat)) (h : List Obs) (r
   match r.val, r.err with
   | some v, none =>
     if created.any (·.id = v) then none
+    else if v = 800000 then
+      some s!"rm-not-found: call {r.id} (key {r.key}) got the not-found error although no query of that key reported not-found"
     -- the harness overwrites a caller's destination with 900000 + call id once that caller's call has returned
     else if v ≥ 900000 then
       some (s!"rm-snapshot: call {r.id} (key {r.key}) was handed the content of the destination variable of call {v - 900000} as it was " ++
@@ -159,7 +163,7 @@ def rmCallViolation (nilJoin : Bool) (inj : List (Nat × Nat)) (h : List Obs) (r
   | none, some e =>
     match h.find? (·.id = e) with
     | some l =>
-      if l.key = r.key && l.ran && l.serr && !l.spanic && (l.id = r.id || callsOverlap l r) then none
+      if l.key = r.key && l.ran && l.failed && !l.spanic && (l.id = r.id || callsOverlap l r) then none
       else some s!"rm-error: call {r.id} (key {r.key}) got the error of create {e} which it may not get"
     | none => some s!"rm-error: call {r.id} got an unknown error {e}"
   | none, none =>
